@@ -6,10 +6,11 @@
    A format is a sequence of tokens: the ten specifiers of the recorder, every other token is a literal
    (SegNameBase.tla: Encode, Producible, DecodeImpl, calendar).
 
-   Instants are (u, us) = Unix seconds (fits TLC's 32-bit integers until 2038) and microseconds. The offset
+   Instants are (d, s, us) = days since 1970, second of the day (UTC), microseconds: Unix seconds do not fit TLC's
+   32-bit integers from 2038-01-19 on, and the table reaches 9999999999 (the last 10-digit %s). The offset
    of every server zone at every instant comes from a table computed at check time from the tz database by
    Python's zoneinfo (independent of Go's time package); the broken-down local time is computed in
-   SegNameBase.tla from u + offset by the civil-from-days rule of the proleptic Gregorian calendar and
+   SegNameBase.tla from day, second and offset by the civil-from-days rule of the proleptic Gregorian calendar and
    cross-checked against the table's own broken-down fields (TableConsistent).
 
    Layer 2 (from the statement):
@@ -57,16 +58,16 @@ AllPaths == <<"a", "a/b", "a-1", "cam.1_x", "2008-11-07_11-22-04-123456", "x/200
               "1638447323", "a/Z">>
 
 \* ---------------------------------------------------------------- layer 2: the round trip, on an observation
-\* o = what the real Decode returned for the real name: [ok, path, u, us, off]
+\* o = what the real Decode returned for the real name: [ok, path, d, s, us, off]  (d, s: day and second of day, UTC)
 \* (off = UTC offset of the returned time.Time at that instant, minutes)
 FormatHasMicros(fmt) == HasTok(fmt, "%f")
 
 \* consist: the real name is the spec's name, so the spec's Encode can be used to judge the returned pair
-RoundTripOK(fmt, p, u, us, name, pathUnamb, instUnamb, o, checkPath, consist) ==
+RoundTripOK(fmt, p, d, sd, us, name, pathUnamb, instUnamb, o, checkPath, consist) ==
     /\ o.ok
     /\ (checkPath /\ pathUnamb) => o.path = p
-    /\ instUnamb => (~o.big /\ o.u = u /\ o.us = us)
-    /\ (consist /\ ~o.big) => Encode(fmt, IF checkPath THEN o.path ELSE p, BD(o.u, o.us, o.off)) = name
+    /\ instUnamb => (~o.big /\ o.d = d /\ o.s = sd /\ o.us = us)
+    /\ (consist /\ ~o.big) => Encode(fmt, IF checkPath THEN o.path ELSE p, BDds(o.d, o.s, o.us, o.off)) = name
 
 \* ---------------------------------------------------------------- bounded model / generator
 VARIABLES fid, zone, tab, done
@@ -133,7 +134,7 @@ EmitCases ==
     done =>
       /\ \A k \in Keys :
            Emit("ENC", [fid |-> fid, fmt |-> Fmt, zone |-> zone, pid |-> k[1], p |-> AllPaths[k[1]], inst |-> k[2],
-                        u |-> Table[k[2]].u, us |-> Table[k[2]].us, off |-> Table[k[2]].off[zone],
+                        d |-> Table[k[2]].d, s |-> Table[k[2]].s, us |-> Table[k[2]].us, off |-> Table[k[2]].off[zone],
                         name |-> tab[k], pathUnamb |-> PathUnamb(k), instUnamb |-> InstUnamb(k)])
       /\ \A k \in CandKeys : \A c \in Mutations(k) \ TrueNames :
            Emit("CAND", [fid |-> fid, fmt |-> Fmt, zone |-> zone, p |-> AllPaths[k[1]], file |-> c])
